@@ -141,6 +141,7 @@ func dryCase(m *Model, rep *Report, r *Rng, seed uint64, idx int) {
 	}
 	// history prefix
 	prefix := r.Intn(3) // 0 empty, 1 installed, 2 installed + upgraded
+	uninstalledKept := false
 	version := 0
 	var deployed []mObj
 	for k := 0; k < prefix; k++ {
@@ -162,6 +163,16 @@ func dryCase(m *Model, rep *Report, r *Rng, seed uint64, idx int) {
 			return
 		}
 		deployed = d.manifestObjs(version)
+	}
+	if prefix > 0 && r.Chance(20) {
+		// the release was uninstalled with --keep-history: the records are still there
+		w.revive()
+		un := action.NewUninstall(w.cfg())
+		un.KeepHistory = true
+		if _, err := un.Run("app"); err == nil {
+			uninstalledKept = true
+			deployed = nil
+		}
 	}
 	// sometimes an object the chart would create is already there and belongs to nobody
 	foreign := false
@@ -195,7 +206,7 @@ func dryCase(m *Model, rep *Report, r *Rng, seed uint64, idx int) {
 	if op.Kind == "rollback" || op.Kind == "uninstall" {
 		op.DryRunOption = ""
 	}
-	cs := map[string]any{"chart": d, "prefix": prefix, "op": op, "foreign": foreign}
+	cs := map[string]any{"chart": d, "prefix": prefix, "op": op, "foreign": foreign, "uninstalledKept": uninstalledKept}
 	before := storeDump(w)
 	histBefore := canon(implLedger(w))
 	w.revive()
@@ -278,6 +289,9 @@ func dryCase(m *Model, rep *Report, r *Rng, seed uint64, idx int) {
 	}
 	// ---- model: install and upgrade (CRD phase + cluster side); hooks and namespace creation are not in this model ----
 	hooksRun := !op.DisableHooks && len(d.Hooks) > 0
+	if uninstalledKept && !dry {
+		return // the cluster side of operations on an uninstalled release is outside this sub-command's model
+	}
 	if (op.Kind == "install" || op.Kind == "upgrade") && (dry || (!hooksRun && !op.CreateNamespace && !op.Atomic && !(op.Kind == "install" && prefix > 0))) {
 		if err != nil && !dry {
 			return // failed for a reason outside this model (name in use, ...)
